@@ -11,6 +11,7 @@ import IocProofs.Lemmas.TagTotal
 import IocProofs.Lemmas.MatchExamples
 import IocProofs.Lemmas.M2SucceedsPerm
 import Ioc.Generated.Facts
+import IocProofs.Lemmas.SemRefresh
 namespace Ioc.C10
 open Ioc Ioc.Tag Ioc.Match
 
@@ -230,5 +231,28 @@ example : (final { ring [1, 2] with fInit := fun n => n == 2 }).status = .failed
     (final { ring [2, 1] with fInit := fun n => n == 2 }).status = .failed 2 .refresh := by decide
 
 end run
+
+/-! ### the tie to the code: Refresh (regenerated, a type switch and two loops)
+
+`Ioc.Progs.fac_Refresh` is the syntax tree of defaultFactory.Refresh (factory.go:92-118).  For EVERY enumeration of the
+definitions (`metas`, any order, any length), every set of lazy components and every creation that may fail, the regenerated
+Refresh asks the factory for exactly the non-lazy names in SORTED order (`Sem.refreshNames`: `sort` applied to the comparator
+literal of the program, which the interpreter runs: `i < j`) and stops at the first failing creation. -/
+theorem C10_code_Refresh (sort : (Nat → Nat → Bool) → List Nat → List Nat) (metas : List Nat) (lazy getFails : Nat → Bool) :
+    Go.run (Sem.refreshPrims sort metas lazy getFails) Progs.fac_Refresh [] [] =
+      some (if (Order.runLoop getFails (Sem.refreshNames sort metas lazy) []).2 then Sem.errN else .nil,
+            (Order.runLoop getFails (Sem.refreshNames sort metas lazy) []).1) :=
+  Sem.refresh_sem sort metas lazy getFails
+
+/-- … hence the creation order of a start is the same for every order in which the registry enumerates the definitions
+    (sync.Map order, registration order): all that is used of `sort.Slice` is that it returns a sorted permutation -/
+theorem C10_code_Refresh_order_independent (sort : (Nat → Nat → Bool) → List Nat → List Nat) (lazy : Nat → Bool)
+    (m1 m2 : List Nat) (hs : ∀ l, (sort Sem.ltb l).Perm l ∧ (sort Sem.ltb l).Pairwise (fun a b => a ≤ b))
+    (h : m1.Perm m2) : Sem.refreshNames sort m1 lazy = Sem.refreshNames sort m2 lazy :=
+  Sem.refreshNames_perm sort lazy m1 m2 hs h
+
+/-- non-vacuity: with an insertion sort; definitions 5, 2 (lazy), 9, 1 in two enumeration orders -/
+example : Sem.refreshNames (fun lt l => l.foldr (fun x acc => acc.filter (fun y => lt y x) ++ [x] ++ acc.filter (fun y => !lt y x)) []) [5, 2, 9, 1] (fun n => n == 2) = [1, 5, 9] ∧
+    Sem.refreshNames (fun lt l => l.foldr (fun x acc => acc.filter (fun y => lt y x) ++ [x] ++ acc.filter (fun y => !lt y x)) []) [1, 9, 2, 5] (fun n => n == 2) = [1, 5, 9] := by decide
 
 end Ioc.C10
